@@ -291,8 +291,10 @@ OnApi(st, e) ==
          IN
          [st1 EXCEPT !.slots = @ \cup {[t |-> e.t + d, kind |-> "ann", set |-> Broadcast(v, FALSE), used |-> FALSE] : d \in {0, 225, 450}},
                      !.gone = {g \in @ : g[1] \notin SvcRecs(v)},
-                     \* answers owed for records of the replaced version are no longer owed
-                     !.obl = {[o EXCEPT !.st = IF o.st = "open" /\ o.r \notin Owned(st1) THEN "cov" ELSE o.st] : o \in @}]
+                     \* answers owed for records of the replaced version are no longer owed: records that are gone, and records
+                     \* whose configured TTL changed (the queued copy is stale; the announcement at this instant carries the new one)
+                     !.obl = {[o EXCEPT !.st = IF o.st = "open" /\ (o.r \notin Owned(st1) \/ TtlsOf(st1, o.r) # TtlsOf(st, o.r))
+                                              THEN "cov" ELSE o.st] : o \in @}]
     [] e.op = "unreg" ->
          LET v == st.reg[e.sid]
              st1 == [st EXCEPT !.reg[e.sid] = NoSvc]
